@@ -36,8 +36,9 @@ var zzKindName = []string{"wrapper", "subfs", "rochild", "cachechild", "wrapwrap
 
 // zzBuild creates the parent tree
 //
-//	in/x = "i", in/d/          (the child's root is in/)
-//	g = "M", o/y = "M"         (outside; marker content)
+//	i/x = "i", i/d/            (the child's root is i/)
+//	g = "M", io/y = "M"        (outside; marker content; the directory io
+//	                            shares its name prefix with the view root)
 //
 // and returns the parent through which the outside is observed and the view
 // under test.
@@ -62,49 +63,49 @@ func zzBuild(kind int) (parent filesystem.Filespace, view filesystem.Filespace) 
 	}
 	switch kind {
 	case kWrapperOfWrapper, kSubOfWrapper:
-		w("w/in/x", "i")
-		nd.Assume(root.MkdirAll("w/in/d", filesystem.DefaultUnixDirMode) == nil)
+		w("w/i/x", "i")
+		nd.Assume(root.MkdirAll("w/i/d", filesystem.DefaultUnixDirMode) == nil)
 		w("w/g", "M")
-		w("w/o/y", "M")
+		w("w/io/y", "M")
 		mid, err := root.Filespace("w")
 		nd.Assume(err == nil)
 		parent = mid
 		if kind == kWrapperOfWrapper {
-			view, err = mid.Filespace("in")
+			view, err = mid.Filespace("i")
 			nd.Assume(err == nil)
 		} else {
-			view = fshelper.NewSubFS(mid, "in")
+			view = fshelper.NewSubFS(mid, "i")
 		}
 		return parent, view
 	}
-	w("in/x", "i")
-	nd.Assume(root.MkdirAll("in/d", filesystem.DefaultUnixDirMode) == nil)
+	w("i/x", "i")
+	nd.Assume(root.MkdirAll("i/d", filesystem.DefaultUnixDirMode) == nil)
 	w("g", "M")
-	w("o/y", "M")
+	w("io/y", "M")
 	var err error
 	switch kind {
 	case kWrapper, kDiskChild:
-		view, err = root.Filespace("in")
+		view, err = root.Filespace("i")
 		nd.Assume(err == nil)
 		return root, view
 	case kSubFS:
-		return root, fshelper.NewSubFS(root, "in")
+		return root, fshelper.NewSubFS(root, "i")
 	case kROChild:
-		view, err = fshelper.NewReadonlyFS(root).Filespace("in")
+		view, err = fshelper.NewReadonlyFS(root).Filespace("i")
 		nd.Assume(err == nil)
 		return root, view
 	case kCacheChild:
 		c, err := fscache.NewMemCache(root)
 		nd.Assume(err == nil)
-		view, err = c.Filespace("in")
+		view, err = c.Filespace("i")
 		nd.Assume(err == nil)
 		return c, view
 	}
 	return nil, nil
 }
 
-// zzOutsideIntact: the part of the parent that is not under in/ is exactly
-// g="M", o/ = {y="M"}; in/ may or may not still exist.
+// zzOutsideIntact: the part of the parent that is not under i/ is exactly
+// g="M", io/ = {y="M"}; i/ may or may not still exist.
 func zzOutsideIntact(parent filesystem.Filespace) bool {
 	infos, err := parent.ReadDir(".")
 	if err != nil {
@@ -115,8 +116,8 @@ func zzOutsideIntact(parent filesystem.Filespace) bool {
 	for _, inf := range infos {
 		n := inf.Name()
 		isG := nd.And(n == "g", !inf.IsDir())
-		isO := nd.And(n == "o", inf.IsDir())
-		isIn := n == "in"
+		isO := nd.And(n == "io", inf.IsDir())
+		isIn := n == "i"
 		seenG = nd.Or(seenG, isG)
 		seenO = nd.Or(seenO, isO)
 		ok = nd.And(ok, nd.Or(nd.Or(isG, isO), isIn))
@@ -125,12 +126,12 @@ func zzOutsideIntact(parent filesystem.Filespace) bool {
 	ok = nd.And(ok, len(infos) <= 3)
 	d, err := parent.ReadFile("g")
 	ok = nd.And(ok, err == nil && bytes.Equal(d, zzMarker))
-	oi, err := parent.ReadDir("o")
+	oi, err := parent.ReadDir("io")
 	ok = nd.And(ok, err == nil && len(oi) == 1)
 	if err == nil && len(oi) == 1 {
 		ok = nd.And(ok, nd.And(oi[0].Name() == "y", !oi[0].IsDir()))
 	}
-	d, err = parent.ReadFile("o/y")
+	d, err = parent.ReadFile("io/y")
 	ok = nd.And(ok, err == nil && bytes.Equal(d, zzMarker))
 	return ok
 }
@@ -167,7 +168,7 @@ func zzInsideRef() *reftree.Node {
 }
 
 func zzOutsideName(n string) bool {
-	return nd.Or(nd.Or(n == "g", n == "o"), nd.Or(n == "y", n == "in"))
+	return nd.Or(nd.Or(n == "g", n == "io"), nd.Or(n == "y", n == "i"))
 }
 
 // zzConfine applies one operation with unconstrained path bytes through the
@@ -239,7 +240,7 @@ func zzConfine(kind int) {
 		// outside the original view's root may be reachable through it
 		sub, err := view.Filespace(p)
 		if err == nil {
-			for _, q := range []string{"g", "o/y", "y", "in/x"} {
+			for _, q := range []string{"g", "io/y", "y", "i/x"} {
 				d, err := sub.ReadFile(q)
 				if err == nil {
 					nd.Assert(!bytes.Equal(d, zzMarker), "C03/"+name+"/subview-read-escapes")
@@ -253,7 +254,8 @@ func zzConfine(kind int) {
 			}
 			sub.WriteFile("g", []byte("w"), filesystem.DefaultUnixFileMode)
 			sub.WriteFile("n", []byte("w"), filesystem.DefaultUnixFileMode)
-			sub.RemoveAll("o")
+			sub.RemoveAll("io")
+			sub.RemoveAll("y")
 			nd.Assert(zzOutsideIntact(parent), "C03/"+name+"/subview-write-escapes")
 		}
 	case 10, 11, 12:
@@ -285,7 +287,7 @@ func zzConfine(kind int) {
 		}
 		nd.Assert(zzOutsideIntact(parent), "C03/"+name+"/copy-dest-escapes")
 		if escSrc {
-			nd.Assert(zzNoMarkerInside(parent, "in", 2), "C03/"+name+"/copy-source-escapes")
+			nd.Assert(zzNoMarkerInside(parent, "i", 2), "C03/"+name+"/copy-source-escapes")
 		}
 	}
 	nd.Reach("C03/" + name + "/end")
